@@ -31,6 +31,14 @@ use std::task::{Context, Poll, Waker};
 
 const SPIN_LIMIT: usize = 200_000;
 static CALLS: AtomicUsize = AtomicUsize::new(0);
+/// every call the router makes into a mock peer; a poll that never returns is ended from here (the panic unwinds out of the
+/// router's `poll` and is reported as a busy loop)
+fn count_call() {
+    if CALLS.fetch_add(1, Ordering::Relaxed) > 2 * SPIN_LIMIT {
+        CALLS.store(0, Ordering::Relaxed);
+        panic!("busy loop: one poll of the router made more than {} calls into its peers without returning", 2 * SPIN_LIMIT);
+    }
+}
 
 struct Rng(u64);
 impl Rng {
@@ -69,7 +77,7 @@ struct MockErr;
 impl<T> Sink<T> for MockSink<T> {
     type Error = MockErr;
     fn poll_ready(self: Pin<&mut Self>, cx: &mut Context<'_>) -> Poll<Result<(), MockErr>> {
-        CALLS.fetch_add(1, Ordering::Relaxed);
+        count_call();
         let mut s = self.0.lock().unwrap();
         if s.broken {
             s.ever_failed = true;
@@ -83,7 +91,7 @@ impl<T> Sink<T> for MockSink<T> {
         Poll::Ready(Ok(()))
     }
     fn start_send(self: Pin<&mut Self>, item: T) -> Result<(), MockErr> {
-        CALLS.fetch_add(1, Ordering::Relaxed);
+        count_call();
         let mut s = self.0.lock().unwrap();
         if !s.ready {
             s.start_without_ready = true;
@@ -102,7 +110,7 @@ impl<T> Sink<T> for MockSink<T> {
         Ok(())
     }
     fn poll_flush(self: Pin<&mut Self>, cx: &mut Context<'_>) -> Poll<Result<(), MockErr>> {
-        CALLS.fetch_add(1, Ordering::Relaxed);
+        count_call();
         let mut s = self.0.lock().unwrap();
         if s.broken {
             s.ever_failed = true;
@@ -116,7 +124,7 @@ impl<T> Sink<T> for MockSink<T> {
         Poll::Ready(Ok(()))
     }
     fn poll_close(self: Pin<&mut Self>, cx: &mut Context<'_>) -> Poll<Result<(), MockErr>> {
-        CALLS.fetch_add(1, Ordering::Relaxed);
+        count_call();
         let mut s = self.0.lock().unwrap();
         if s.broken {
             s.ever_failed = true;
@@ -196,7 +204,7 @@ struct MockStream<T>(Arc<Mutex<StreamSt<T>>>);
 impl<T> Stream for MockStream<T> {
     type Item = SResult<T>;
     fn poll_next(self: Pin<&mut Self>, cx: &mut Context<'_>) -> Poll<Option<SResult<T>>> {
-        CALLS.fetch_add(1, Ordering::Relaxed);
+        count_call();
         let mut s = self.0.lock().unwrap();
         if let Some(x) = s.q.pop_front() {
             s.taken += 1;
@@ -313,6 +321,20 @@ fn pubsub_scenario(seed: u64, log: &mut Vec<String>) -> Result<(), (String, &'st
                     } else {
                         log.push(format!("subscriber {i} has no buffer space left (not ready, flushes at once)"));
                         subs[i].h.stall_ready();
+                        // now and then: one more message, and every publisher leaves while that subscriber is still not ready
+                        let live: Vec<usize> = (0..pubs.len()).filter(|&i| !pubs[i].2).collect();
+                        if !live.is_empty() && r.below(3) == 0 {
+                            let p = live[0];
+                            let v = (p as u64) * 1_000_000 + pubs[p].1;
+                            pubs[p].1 += 1;
+                            pushed.push(v);
+                            pubs[p].0.push(Ok(v));
+                            for &q in &live {
+                                pubs[q].2 = true;
+                                pubs[q].0.end();
+                            }
+                            log.push(format!("publisher {p} sends a message; then every publisher finishes"));
+                        }
                     }
                 }
             }
@@ -688,7 +710,37 @@ fn reqrep_scenario(seed: u64, log: &mut Vec<String>) -> Result<(), (String, &'st
                 let live: Vec<usize> = (0..reqs.len()).filter(|&i| !reqs[i].gone).collect();
                 if !live.is_empty() {
                     let i = live[r.below(live.len() as u64) as usize];
-                    match r.below(3) {
+                    match r.below(5) {
+                        3 if live.len() > 1 => {
+                            // the reply is written to the requestor, whose connection fails before it is flushed: only that
+                            // requestor is lost (the flush reports the failure), the topic keeps serving and can still finish
+                            log.push(format!("requestor {i} stops flushing, sends a request; once the reply was written its connection fails"));
+                            pump(&mut ex, &mut bound, &mut seen_by_replier)?;
+                            reqs[i].sink.stall_flush();
+                            counter += 1;
+                            let body = format!("q{counter}-from-{i}").into_bytes();
+                            reqs[i].sent.push(body.clone());
+                            reqs[i].stream.push(Ok(Frame::Message(MessagePayload { headers: None, message: Bytes::from(body) })));
+                            pump(&mut ex, &mut bound, &mut seen_by_replier)?;
+                            reqs[i].gone = true;
+                            reqs[i].sink.break_it();
+                            ex.run().map_err(spin)?;
+                            reqs[i].stream.end();
+                        }
+                        3 => {}
+                        4 => {
+                            // a burst of well-formed frames of kinds a requestor has no business sending, then a request: the noise is
+                            // ignored, the request is served
+                            log.push(format!("requestor {i} sends 70 frames of unexpected kinds, then a request"));
+                            for k in 0..70u32 {
+                                reqs[i].stream.push(Ok(if k % 2 == 0 { Frame::Ok } else { Frame::BatchMessage(Bytes::from_static(b"noise")) }));
+                            }
+                            counter += 1;
+                            let body = format!("q{counter}-from-{i}").into_bytes();
+                            reqs[i].sent.push(body.clone());
+                            reqs[i].stream.push(Ok(Frame::Message(MessagePayload { headers: None, message: Bytes::from(body) })));
+                            pump(&mut ex, &mut bound, &mut seen_by_replier)?;
+                        }
                         0 => {
                             log.push(format!("requestor {i} stalls briefly"));
                             reqs[i].sink.stall();
@@ -871,7 +923,11 @@ fn run_one(family: &str, seed: u64) -> Result<(), (String, String, Vec<String>)>
         Ok(Err((e, p))) => Err((e, p.to_string(), log)),
         Err(e) => {
             let m = e.downcast_ref::<String>().cloned().or_else(|| e.downcast_ref::<&str>().map(|s| s.to_string())).unwrap_or_default();
-            Err((format!("the router panicked: {m}"), "C08 C11 GEN".to_string(), log))
+            if m.starts_with("busy loop") {
+                Err((m, "C09 GEN".to_string(), log))
+            } else {
+                Err((format!("the router panicked: {m}"), "C08 C11 GEN".to_string(), log))
+            }
         }
     }
 }
